@@ -266,6 +266,30 @@ impl<'a, 'tcx> M<'a, 'tcx> {
                 v.push(("v", J::s(s)));
             }
         }
+        // named constants of tuple type (`const CLAMP: (f64, f64) = ..`): evaluate and export the scalar fields
+        if let (Const::Unevaluated(u, _), ty::Tuple(tys)) = (c.const_, ty.kind()) {
+            if u.promoted.is_none() && !tys.is_empty() {
+                if let Ok(val) = c.const_.eval(tcx, self.env, c.span) {
+                    if let Some(d) = tcx.try_destructure_mir_constant_for_user_output(val, ty) {
+                        let mut fs: Vec<J> = Vec::new();
+                        let mut all = true;
+                        for (fv, fty) in d.fields.iter() {
+                            match fv {
+                                mir::ConstValue::Scalar(mir::interpret::Scalar::Int(si))
+                                    if fty.is_bool() || fty.is_integral() || fty.is_floating_point() || fty.is_char() =>
+                                {
+                                    fs.push(obj! {"ty": self.cx.ty(*fty), "v": J::s(scalar_to_string(*fty, *si))});
+                                }
+                                _ => all = false,
+                            }
+                        }
+                        if all {
+                            v.push(("tuple_fields", J::Arr(fs)));
+                        }
+                    }
+                }
+            }
+        }
         J::Obj(v)
     }
 
